@@ -272,7 +272,7 @@ class XPathToken(Token[ta.XPathTokenType]):
                 return results
             if isinstance(results[0], self.registry.function_token):
                 return results[0]
-            if self.symbol in ('.', '/', '//', '[', '(', '@', 'for',):
+            if self.symbol in ('.', '/', '//', '[', '(', '@', 'for', '|', 'union', 'intersect', 'except'):
                 return results
             if self.symbol in ('cast', 'castable', '-', '+', 'some', 'every'):
                 return cast(AnyAtomicType, results[0])
